@@ -415,3 +415,41 @@ Section Window.
     - cbn [app]. destruct k; [reflexivity |]. cbn [rank_in]. now rewrite IH.
   Qed.
 End Window.
+
+(** * lookup in the regions built from a packed bitmap *)
+From KdV Require Import Fmt.ImageSpec.
+
+Lemma rank_in_is_some {A} e (l : list (option A)) : forall pfn k,
+  pfn + N.of_nat (length l) <= e ->
+  rank_in 0 e (map (@is_some A) l) pfn k = count_some (firstn k l).
+Proof.
+  induction l as [| p t IH]; intros pfn k He; [destruct k; reflexivity |].
+  destruct k; [reflexivity |]. cbn [map rank_in firstn length] in *.
+  rewrite IH by lia. unfold live.
+  destruct (N.leb_spec 0 pfn); [| lia]. destruct (N.ltb_spec pfn e); [| lia].
+  destruct p; reflexivity.
+Qed.
+
+Lemma lookup_bitmap msb0 n bits fileoff elemsz p :
+  (length bits <= 8 * n)%nat ->
+  pos_of elemsz
+    (find_pfn_region (regions_from_bitmap msb0 (bits_to_bytes msb0 n bits) 0 (N.of_nat (8 * n)) fileoff elemsz) p) p
+  = if nth (N.to_nat p) bits false
+    then Some (fileoff + rank_in 0 (N.of_nat (8 * n)) bits 0 (N.to_nat p) * elemsz)
+    else None.
+Proof.
+  intro Hlen. unfold regions_from_bitmap.
+  rewrite find_pfn_region_lin by (apply runs_sorted; cbn; lia).
+  destruct (runs_lookup elemsz 0 (N.of_nat (8 * n)) (bits_of_bytes msb0 (bits_to_bytes msb0 n bits)) 0 fileoff None
+              ltac:(cbn; lia)) as [_ H].
+  specialize (H (N.to_nat p)). rewrite N2Nat.id, N.add_0_l in H. rewrite H. clear H.
+  rewrite unpack_bits_to_bytes, (padded_short _ _ Hlen).
+  rewrite live_at_app_false, rank_in_app_false. cbn [lower].
+  rewrite N2Nat.id, N.add_0_l. unfold live.
+  destruct (nth (N.to_nat p) bits false) eqn:Hb; cbn [andb]; [| reflexivity].
+  assert (Hlt : (N.to_nat p < length bits)%nat).
+  { destruct (Nat.lt_ge_cases (N.to_nat p) (length bits)); [assumption |].
+    rewrite nth_overflow in Hb by lia. discriminate. }
+  destruct (N.leb_spec 0 p); [| lia]. destruct (N.ltb_spec p (N.of_nat (8 * n))); [| lia].
+  cbn [andb]. reflexivity.
+Qed.
